@@ -10,6 +10,7 @@ import (
 	"verif/internal/model"
 	"verif/internal/ref"
 	"verif/internal/run"
+	"verif/internal/zoo"
 )
 
 func init() {
@@ -34,6 +35,7 @@ func errPathsSorted(o *Outcome) []string {
 }
 
 func runC02(c *run.Ctx) {
+	defer c02Farm(c)
 	c.Rule = "each generated tuple is served by interface resolvers, a root (any) resolver, reflection over dynamically built and registered struct types, and three per-node mixtures " +
 		"(iface+any, iface+reflect, reflect-capable structs with an AnyResolver installed); oracle: pairwise equality of canonical data and of sorted error paths, plus the call log " +
 		"(an object implementing Resolver must be served by it even when an AnyResolver exists; with an AnyResolver installed no object may be served by reflection). " +
@@ -123,6 +125,85 @@ func runC02(c *run.Ctx) {
 			if diag != "" {
 				c.Violation("c02-diverge", ec.replay(a.kind+" vs "+b.kind, ec.DC.OpName, map[string]interface{}{"diag": diag, "variant": variant,
 					"graph_used": describeGraph(g), a.kind: a.out.Describe(), b.kind: b.out.Describe()}))
+				break
+			}
+		}
+	}
+}
+
+// c02Farm is the auto-discovered-binding differential: one concrete-typed schema served by named Go struct types that
+// ggql has to bind by name on a cold root, registered and unregistered, purely by reflection and mixed per node with
+// interface resolvers in several assignment patterns.
+func c02Farm(c *run.Ctx) {
+	ms := zoo.FarmModel()
+	sdl := ms.SDL(model.SDLOpts{})
+	n := c.N(250, 8000)
+	for i := 0; i < n && !c.TooMany(); i++ {
+		r := c.Rand(2000000 + i)
+		g := gen.Graph(r, ms, gen.GraphOpts{PerType: 2 + i%2, TypedNil: 0})
+		if i%2 == 1 {
+			if ls := c06LeafSites(ms, g); len(ls) > 0 {
+				site := ls[r.Intn(len(ls))]
+				g.Nodes[site.node.ID].F[site.field] = setLeaf(g.Nodes[site.node.ID].F[site.field], site.idx, c02Hostile(r.Intn(100)))
+			}
+		}
+		dc := gen.Doc(r, ms, gen.DocOpts{Frags: true, Aliases: true, Dirs: i%3 == 0, Vars: true, Depth: 3 + r.Intn(3), MaxOps: 1})
+		text := dc.Doc.Print(model.LayoutN(i))
+		type variant struct {
+			name string
+			kind string
+			o    back.Opts
+		}
+		pat := func(k int) func(n *model.Node) back.Strategy {
+			return func(n *model.Node) back.Strategy {
+				if n.ID == 0 || (n.ID+k)%2 == 0 {
+					return back.Reflect
+				}
+				return back.Iface
+			}
+		}
+		vs := []variant{
+			{"reflect-dynamic-registered", "reflect", back.Opts{TypedSlices: true}},
+			{"reflect-named-auto", "reflect", back.Opts{StaticTypes: zoo.FarmTypes(), NoRegister: true, TypedSlices: true}},
+			{"reflect-named-registered", "reflect", back.Opts{StaticTypes: zoo.FarmTypes(), TypedSlices: i%2 == 0}},
+			{"iface", "iface", back.Opts{}},
+			{"mixed-named-auto-0", "mixed-reflect", back.Opts{StaticTypes: zoo.FarmTypes(), NoRegister: true, Strat: pat(0), TypedSlices: true}},
+			{"mixed-named-auto-1", "mixed-reflect", back.Opts{StaticTypes: zoo.FarmTypes(), NoRegister: true, Strat: pat(1)}},
+			{"mixed-named-auto-thirds", "mixed-reflect", back.Opts{StaticTypes: zoo.FarmTypes(), NoRegister: true, Strat: func(n *model.Node) back.Strategy {
+				if n.ID != 0 && n.ID%3 == 0 {
+					return back.Iface
+				}
+				return back.Reflect
+			}}},
+		}
+		var first *Outcome
+		firstName := ""
+		c.Eval("farm|"+text+fmt.Sprint(i%2), true)
+		for _, v := range vs {
+			h, err := back.BuildOpts(v.kind, ms, sdl, g, v.o)
+			if err != nil {
+				c.Violation("c02-schema-rejected", map[string]interface{}{"variant": v.name, "error": err.Error()})
+				return
+			}
+			out := Do(h, Request{Text: text, OpName: dc.OpName, Vars: dc.Vars, Entry: i}, nil)
+			c.Bucket("farm_variant", v.name)
+			c.Count("farm_runs", 1)
+			if first == nil {
+				first, firstName = out, v.name
+				continue
+			}
+			diag := ""
+			switch {
+			case (first.Panic != nil) != (out.Panic != nil):
+				diag = "one variant panics"
+			case !ref.Equal(first.Data, out.Data):
+				diag = "data differs"
+			case strings.Join(errPathsSorted(first), ";") != strings.Join(errPathsSorted(out), ";"):
+				diag = "error paths differ"
+			}
+			if diag != "" {
+				c.Violation("c02-farm-diverge", map[string]interface{}{"variants": firstName + " vs " + v.name, "diag": diag, "sdl": sdl, "document": text, "vars": dc.Vars,
+					"graph": describeGraph(g), firstName: first.Describe(), v.name: out.Describe()})
 				break
 			}
 		}
